@@ -16,7 +16,14 @@ import (
 	"golang.org/x/tools/go/ssa/ssautil"
 )
 
-const repoDir = "/repo"
+// repoDir is /repo; VERIF_REPO points the engine at a scratch worktree instead (used only by
+// tools/seed_run.sh so that seeded changes never have to touch /repo itself)
+var repoDir = func() string {
+	if d := os.Getenv("VERIF_REPO"); d != "" {
+		return d
+	}
+	return "/repo"
+}()
 const modPath = "git.torproject.org/pluggable-transports/snowflake.git/v2"
 
 // JobSpec describes one harness run (one entry of /verif/checks/<id>.json).
